@@ -6,7 +6,7 @@ import struct
 import sqlite3
 from hypothesis import strategies as st
 
-from ..core import Clause, Violation, guard, HarnessError
+from ..core import Clause, Enum, Violation, guard, HarnessError
 from ..harness import make_problem, dispose, seed_all
 
 PROPERTY = "C10"
@@ -94,11 +94,20 @@ def histories(draw):
             "costs": [{"name": cn, **({"criteria": draw(st.sampled_from(["minimize", "maximize"]))}
                                      if draw(st.booleans()) else {})}
                       for cn in draw(st.lists(name_text, min_size=1, max_size=3, unique=True))]}
+    # a second problem definition for mode="rewrite": a subset / superset of the first one's names
+    keep_p = draw(st.integers(1, len(meta["parameters"])))
+    keep_c = draw(st.integers(1, len(meta["costs"])))
+    meta2 = {"name": draw(name_text), "description": draw(st.one_of(st.just(""), name_text)),
+             "parameters": [dict(p_) for p_ in meta["parameters"][:keep_p]] + (
+                 [{"name": "fresh-" + meta["parameters"][0]["name"], "bounds": [0.0, 2.0]}] if draw(st.booleans()) else []),
+             "costs": [dict(c_) for c_ in meta["costs"][:keep_c]]}
     ops = []
     nind = 0
     for _ in range(draw(st.integers(1, 20))):
         o = draw(st.sampled_from(["new", "new", "new", "mutate", "mutate", "mutate_nosync", "add_nosync", "sync_all",
-                                  "view", "inplace", "inplace", "reopen_write"]))
+                                  "view", "inplace", "inplace", "reopen_write", "rewrite"]))
+        if o == "rewrite" and (any(x["op"] == "rewrite" for x in ops) or draw(st.integers(0, 2)) > 0):
+            o = "view"
         if o in ("new", "add_nosync"):
             ops.append({"op": o, "f": draw(fields(nind))})
             nind += 1
@@ -111,9 +120,11 @@ def histories(draw):
                                                       "feature-append", "costs-append"])),
                         "val": draw(st.one_of(st.integers(-9, 9).map(float), st.sampled_from([-0.0, 0.0, 1.5]))),
                         "sync": draw(st.sampled_from(["individual", "individual", "all"]))})
-        elif o in ("sync_all", "view", "reopen_write"):
+        elif o in ("sync_all", "view", "reopen_write", "rewrite"):
             ops.append({"op": o})
-    return {"meta": meta, "ops": ops, "thread_safe": draw(st.sampled_from([True, True, False]))}
+            if o == "rewrite":
+                nind = 0
+    return {"meta": meta, "meta2": meta2, "ops": ops, "thread_safe": draw(st.sampled_from([True, True, False]))}
 
 
 # ---------------------------------------------------------------- normalisation (what a JSON round trip must return)
@@ -312,10 +323,25 @@ def check_history(case):
             elif o == "view":
                 compare_view("store", db, meta, model, "after step %d" % k)
                 classes.add("mid-history-view")
+            elif o == "rewrite":
+                # mode="rewrite": the file starts again from scratch with the new problem's definitions
+                meta = case["meta2"]
+                prob3 = make_problem(meta["parameters"], meta["costs"], lambda ind: [0.0], name=meta["name"])
+                prob3.description = meta["description"]
+                extra.append(prob3)
+                with guard("store"):
+                    prob3.data_store = SqliteDataStore(prob3, database_name=db, mode="rewrite",
+                                                       thread_safe=case.get("thread_safe", True))
+                prob = prob3
+                objs = []
+                model = {}
+                classes.add("rewrite-mode")
+                compare_view("store", db, meta, model, "right after rewrite at step %d" % k)
             elif o == "reopen_write":
                 # a second problem opens the existing file in write mode (it loads what is stored) and carries on
                 compare_view("store", db, meta, model, "before reopening at step %d" % k)
                 prob2 = make_problem(meta["parameters"], meta["costs"], lambda ind: [0.0], name=meta["name"])
+                prob2.description = meta["description"]
                 extra.append(prob2)
                 with guard("store"):
                     prob2.data_store = SqliteDataStore(prob2, database_name=db,
@@ -515,6 +541,48 @@ def decode_bytes(fdp):
     return {"f": f, "others": 3}
 
 
+# ---------------------------------------------------------------- large stores (hundreds to thousands of rows)
+
+def large_items(tier):
+    sizes = [513, 1300] if tier == "quick" else [255, 256, 511, 512, 513, 1024, 1300, 4099]
+    for n in sizes:
+        for warm in (0, 37):
+            for how in ("individual", "all"):
+                yield {"n": n, "warm": warm, "how": how}
+
+
+def check_large(case):
+    from artap.individual import Individual
+    from artap.datastore import SqliteDataStore
+    meta = {"name": "large", "description": "", "parameters": [{"name": "a", "bounds": [0.0, 1.0]}],
+            "costs": [{"name": "f"}]}
+    prob = make_problem(meta["parameters"], meta["costs"], lambda ind: [0.0], name="large")
+    try:
+        db = os.path.join(prob.working_dir, "large.sqlite")
+        for _ in range(case["warm"]):
+            Individual([0.0])            # ids in the file do not start at the beginning of the id counter
+        with guard("large"):
+            prob.data_store = SqliteDataStore(prob, database_name=db, thread_safe=(case["how"] == "individual"))
+        model = {}
+        for k in range(case["n"]):
+            ind = Individual([k / 7.0])
+            ind.costs = [float(k)]
+            ind.costs_signed = [float(k), True]
+            ind.population_id = k % 5
+            prob.individuals.append(ind)
+            if case["how"] == "individual":
+                with guard("large"):
+                    prob.data_store.sync_individual(ind)
+            model[ind.id] = snapshot(ind)
+        if case["how"] == "all":
+            with guard("large"):
+                prob.data_store.sync_all()
+        compare_view("large", db, meta, model, "%d individuals" % case["n"])
+    finally:
+        dispose(prob)
+    return {"nt": True, "classes": ["n%d" % case["n"], case["how"]]}
+
+
 FUZZ_DECODERS = {"encode": decode_bytes}
 FUZZ = ["encode"]
 
@@ -522,4 +590,9 @@ CLAUSES = [
     Clause("encode", encode_cases(), check_encode, quick=1500, thorough=10000, quick_shards=2),
     Clause("store", histories(), check_history, quick=300, thorough=3000, quick_shards=4),
     Clause("runs", run_cases(), check_run, quick=44, thorough=240, quick_shards=4),
+]
+ENUMS = [
+    Enum("large", large_items, check_large, tiers=("quick", "thorough"), chunk=1,
+         exhaustive_note="stores with 513 / 1300 (thorough: 255..4099) individuals, written one by one or by sync_all, ids "
+                         "offset from the start of the id counter or not"),
 ]
